@@ -40,12 +40,21 @@ func (c *Ctx) Count(bucket string) { c.hist[bucket]++ }
 
 func (c *Ctx) Quick() bool { return c.Tier != "thorough" && !c.Search }
 
-// Pick returns q in the quick tier, t in the thorough tier or when searching.
+// Pick returns q in the quick tier and t in the thorough tier. When an obligation broke in the quick tier (Search) the
+// budget is 8·q, capped at t: enough to find a failing input near the generator's usual reach without turning the
+// every-change check into a thorough run.
 func (c *Ctx) Pick(q, t int) int {
-	if c.Quick() {
-		return q
+	if c.Tier == "thorough" {
+		return t
 	}
-	return t
+	if c.Search {
+		s := 8 * q
+		if s > t {
+			s = t
+		}
+		return s
+	}
+	return q
 }
 
 // Main parses the common flags and runs f; every per-property harness is `func main() { hl.Main("Cxx", run) }`.
